@@ -11,6 +11,8 @@ requests
   `{"op":"hist","s":k,"calls":[[name,arg,…],…]}` several calls in order → `{"ok":true,"outs":[OUT,…]}`
   `{"op":"fan","calls":[…],"alts":[call,…]}`   fresh store: the calls in order, then every alternative
                                                  call applied (independently) to the state after them
+  `{"op":"check","calls":[…],"outs":[OUT,…]}`  the verified checker `checkHistory` (theorem `C13_checker`) on the
+                                                 answers the REAL storage gave → `{"ok":true,"spec":bool,"bad":index|null}`
   `{"op":"end","s":k}`                          forget the session
   `{"op":"conc","progs":[[call,…],…],"sched":[i,…]}`  the concurrent semantics `Conc.run` from an empty store
                                                  → per-client outputs + the linearized history's outputs
@@ -104,6 +106,26 @@ def jOp (j : Json) : Except String Op := do
   | "load_job_status" => return .loadJobStatus (← s 1)
   | _ => throw s!"unknown method {name}"
 
+def jErr (s : String) : Except String Err :=
+  match s with
+  | "KeyError" => .ok .keyError
+  | "ValueError" => .ok .valueError
+  | "TypeError" => .ok .typeError
+  | "AttributeError" => .ok .attributeError
+  | _ => .error s!"unknown exception class {s}"
+
+/-- an answer of the REAL storage, as the harness encoded it -/
+def jOut (j : Json) : Except String Out := do
+  let k ← jStr (← field j "k")
+  match k with
+  | "none" => return .none
+  | "id" => return .id (← jStr (← field j "v"))
+  | "ids" => return .ids (← jList jStr (← field j "v"))
+  | "val" => return .val (← jVal (← field j "v"))
+  | "vals" => return .vals (← jList jVal (← field j "v"))
+  | "error" => return .error (← jErr (← jStr (← field j "v")))
+  | _ => throw s!"unknown answer kind {k}"
+
 inductive Sess where
   | mem (s : Store)
   | null (s : NullStore)
@@ -159,6 +181,13 @@ def handle (st : St) (j : Json) : Except String (St × Json) := do
     let aos := alts.map (fun op => (x.call op).2)
     return (st, Json.mkObj [("ok", true), ("outs", Json.arr (os.map outJson).toArray),
       ("alts", Json.arr (aos.map outJson).toArray)])
+  | "check" =>
+    -- the verified checker (theorem C13_checker) on the answers of the REAL storage
+    let ops ← jList jOp (← field j "calls")
+    let outs ← jList jOut (← field j "outs")
+    let h := ops.zip outs
+    return (st, Json.mkObj [("ok", true), ("spec", checkHistory h),
+      ("bad", match firstBadAnswer Store.init h 0 with | some i => Json.num (JsonNumber.fromNat i) | none => Json.null)])
   | "conc" =>
     let progs ← jList (jList jOp) (← field j "progs")
     let sched ← jList jNat (← field j "sched")
